@@ -36,6 +36,7 @@ type ReadRecord struct {
 	From    string
 	Payload []byte
 	Stamp   uint64
+	Call    int // index of the ReadFrom/ReadBatch call that returned it
 }
 
 // CloseRecord is one Close call on a socket.
@@ -53,6 +54,7 @@ type kernel struct {
 	closes  []CloseRecord
 	stamp   func() uint64
 	nextEph int
+	calls   int
 }
 
 var k = &kernel{socks: map[string]*UDPConn{}}
@@ -158,6 +160,16 @@ func (c *UDPConn) InjectReadError(err error) {
 	simrt.CountFault("socket-read-error")
 }
 
+// InjectReadError makes the next read of the socket bound to addr fail with err.
+func InjectReadError(addr string, err error) {
+	k.mu.Lock()
+	c := k.socks[addr]
+	k.mu.Unlock()
+	if c != nil {
+		c.InjectReadError(err)
+	}
+}
+
 // InjectWriteError makes the next write fail with err.
 func (c *UDPConn) InjectWriteError(err error) {
 	c.mu.Lock()
@@ -229,13 +241,21 @@ func (c *UDPConn) waitReadable() error {
 	}
 }
 
-func (c *UDPConn) record(d dgram) {
+func (c *UDPConn) newCall() int {
+	k.mu.Lock()
+	k.calls++
+	n := k.calls
+	k.mu.Unlock()
+	return n
+}
+
+func (c *UDPConn) record(d dgram, call int) {
 	k.mu.Lock()
 	st := uint64(0)
 	if k.stamp != nil {
 		st = k.stamp()
 	}
-	k.reads = append(k.reads, ReadRecord{Sock: c.key, From: d.from.String(), Payload: append([]byte(nil), d.payload...), Stamp: st})
+	k.reads = append(k.reads, ReadRecord{Sock: c.key, From: d.from.String(), Payload: append([]byte(nil), d.payload...), Stamp: st, Call: call})
 	k.mu.Unlock()
 }
 
@@ -247,7 +267,7 @@ func (c *UDPConn) ReadFrom(b []byte) (int, net.Addr, error) {
 	d := c.queue[0]
 	c.queue = c.queue[1:]
 	c.mu.Unlock()
-	c.record(d)
+	c.record(d, c.newCall())
 	n := copy(b, d.payload)
 	return n, d.from, nil
 }
@@ -405,8 +425,9 @@ func (b *BatchConn) ReadBatch(ms []ipv4.Message, _ int) (int, error) {
 		n++
 	}
 	c.mu.Unlock()
+	call := c.newCall()
 	for _, d := range taken {
-		c.record(d)
+		c.record(d, call)
 	}
 	if n > 1 {
 		simrt.CountProbe("batch-read>1")
